@@ -213,12 +213,26 @@ pub fn run_threads(r: &mut Rng, n: usize, out: &mut Out) {
                 }
             }));
         }
-        let mut panicked = false;
-        for h in handles {
-            panicked |= h.join().is_err();
+        // the joins run under the watchdog: a thread spinning inside the cache (holding its mutex) must
+        // show up as HANG for this case, not block the stream
+        let cache2 = cache.clone();
+        let res = crate::watch::run(60, move || {
+            let mut panicked = false;
+            for h in handles {
+                panicked |= h.join().is_err();
+            }
+            if panicked { "panic".to_string() } else { dump_text(&cache2.verif_dump()) }
+        });
+        let text = match res {
+            crate::watch::Outcome::Done(s) => s,
+            crate::watch::Outcome::Panic => "panic".to_string(),
+            crate::watch::Outcome::Hang => "HANG".to_string(),
+        };
+        let hung = text == "HANG";
+        out.case(&["cache.inv", &threads.to_string()], &text);
+        if hung {
+            break; // the spinning threads keep the clock hook busy: later cases would not be meaningful
         }
-        let d = dump_text(&cache.verif_dump());
-        out.case(&["cache.inv", &threads.to_string()], &if panicked { "panic".to_string() } else { d });
     }
     verif::disarm_clock();
 }
